@@ -35,6 +35,14 @@ static inline bool size_mul_overflow(size_t a, size_t b, size_t *result) {
     return (*result / a) != b;
 }
 
+/* Read a tagged varint without touching bytes at or beyond 'end'.
+ * Returns 0 if the varint is cut short of its announced length. */
+static varintWidth taggedGetBounded(const uint8_t *ptr, const uint8_t *end,
+                                    uint64_t *result) {
+    const size_t avail = (size_t)(end - ptr);
+    return varintTaggedGet(ptr, avail > 9 ? 9 : (int32_t)avail, result);
+}
+
 /* Internal comparison function for qsort */
 static int compareUint64(const void *a, const void *b) {
     uint64_t va = *(const uint64_t *)a;
@@ -234,8 +242,8 @@ uint64_t *varintDictDecode(const uint8_t *buffer, size_t bufferLen,
 
     /* Read dictionary size */
     uint64_t dictSize64;
-    varintWidth w = varintTaggedGet64(ptr, &dictSize64);
-    if (w == 0 || ptr + w > end) {
+    varintWidth w = taggedGetBounded(ptr, end, &dictSize64);
+    if (w == 0) {
         return NULL;
     }
     ptr += w;
@@ -259,8 +267,8 @@ uint64_t *varintDictDecode(const uint8_t *buffer, size_t bufferLen,
     }
 
     for (uint32_t i = 0; i < dictSize; i++) {
-        w = varintTaggedGet64(ptr, &dictValues[i]);
-        if (w == 0 || ptr + w > end) {
+        w = taggedGetBounded(ptr, end, &dictValues[i]);
+        if (w == 0) {
             free(dictValues);
             return NULL;
         }
@@ -269,8 +277,8 @@ uint64_t *varintDictDecode(const uint8_t *buffer, size_t bufferLen,
 
     /* Read count */
     uint64_t count64;
-    w = varintTaggedGet64(ptr, &count64);
-    if (w == 0 || ptr + w > end) {
+    w = taggedGetBounded(ptr, end, &count64);
+    if (w == 0) {
         free(dictValues);
         return NULL;
     }
@@ -286,8 +294,8 @@ uint64_t *varintDictDecode(const uint8_t *buffer, size_t bufferLen,
         varintExternalUnsignedEncoding(maxIndex, indexWidth);
     }
 
-    /* Check if we have enough buffer for indices */
-    if (ptr + (count * indexWidth) > end) {
+    /* Check if we have enough buffer for indices (without overflowing) */
+    if (count > (size_t)(end - ptr) / indexWidth) {
         free(dictValues);
         return NULL;
     }
@@ -328,8 +336,8 @@ size_t varintDictDecodeInto(const uint8_t *buffer, size_t bufferLen,
 
     /* Read dictionary size */
     uint64_t dictSize64;
-    varintWidth w = varintTaggedGet64(ptr, &dictSize64);
-    if (w == 0 || ptr + w > end) {
+    varintWidth w = taggedGetBounded(ptr, end, &dictSize64);
+    if (w == 0) {
         return 0;
     }
     ptr += w;
@@ -353,8 +361,8 @@ size_t varintDictDecodeInto(const uint8_t *buffer, size_t bufferLen,
     }
 
     for (uint32_t i = 0; i < dictSize; i++) {
-        w = varintTaggedGet64(ptr, &dictValues[i]);
-        if (w == 0 || ptr + w > end) {
+        w = taggedGetBounded(ptr, end, &dictValues[i]);
+        if (w == 0) {
             free(dictValues);
             return 0;
         }
@@ -363,8 +371,8 @@ size_t varintDictDecodeInto(const uint8_t *buffer, size_t bufferLen,
 
     /* Read count */
     uint64_t count64;
-    w = varintTaggedGet64(ptr, &count64);
-    if (w == 0 || ptr + w > end) {
+    w = taggedGetBounded(ptr, end, &count64);
+    if (w == 0) {
         free(dictValues);
         return 0;
     }
@@ -386,8 +394,8 @@ size_t varintDictDecodeInto(const uint8_t *buffer, size_t bufferLen,
         varintExternalUnsignedEncoding(maxIndex, indexWidth);
     }
 
-    /* Check buffer bounds */
-    if (ptr + (count * indexWidth) > end) {
+    /* Check buffer bounds (without overflowing) */
+    if (count > (size_t)(end - ptr) / indexWidth) {
         free(dictValues);
         return 0;
     }
